@@ -32,7 +32,22 @@ fn child_main(dir: &str) -> ! {
                     let (failed, events, loss, types) = stats
                         .map(|s| (s.entries_failed, s.corruption_events.len(), s.data_loss_detected, s.corruption_events.iter().map(|e| format!("{:?}", e.corruption_type)).collect::<Vec<_>>()))
                         .unwrap_or((0, 0, false, vec![]));
-                    json!({"ok": true, "state": st.iter().map(|(k, v)| json!([k, v.0, v.1])).collect::<Vec<_>>(), "entries_failed": failed, "corruption_events": events, "data_loss": loss, "types": types})
+                    // a second restart of what the first recovery left behind must see the same state:
+                    // recovery may report and skip damage, it must not turn it into further loss
+                    drop(m);
+                    let second = match Mgr::new(config(&dirp, FlushStrategy::Always)).await {
+                        Ok(m2) => {
+                            let st2 = m2.get_all().map(|h| h.into_iter().collect::<BTreeMap<_, _>>()).unwrap_or_default();
+                            if st2 == st {
+                                json!(null)
+                            } else {
+                                let k = st.keys().chain(st2.keys()).find(|k| st.get(*k) != st2.get(*k)).cloned().unwrap_or_default();
+                                json!(format!("key {k}: first recovery {:?}, second recovery {:?}", st.get(&k).map(|v| v.0), st2.get(&k).map(|v| v.0)))
+                            }
+                        }
+                        Err(e) => json!(format!("second open failed: {e}")),
+                    };
+                    json!({"ok": true, "state": st.iter().map(|(k, v)| json!([k, v.0, v.1])).collect::<Vec<_>>(), "entries_failed": failed, "corruption_events": events, "data_loss": loss, "types": types, "second": second})
                 }
                 Err(e) => json!({"ok": false, "err": e.to_string()}),
             }
@@ -57,12 +72,14 @@ struct ChildOut {
     corruption_events: u64,
     data_loss: bool,
     peak: u64,
+    /// how the state after a second restart differs from the first recovery's (None: identical)
+    second: Option<String>,
 }
 
 fn run_child(dir: &Path) -> ChildOut {
     let exe = std::env::current_exe().expect("exe");
     let o = Command::new(exe).arg("--child").arg(dir).output();
-    let mut out = ChildOut { crashed: None, panic: None, open_err: None, state: BTreeMap::new(), entries_failed: 0, corruption_events: 0, data_loss: false, peak: 0 };
+    let mut out = ChildOut { crashed: None, panic: None, open_err: None, state: BTreeMap::new(), entries_failed: 0, corruption_events: 0, data_loss: false, peak: 0, second: None };
     match o {
         Err(e) => out.crashed = Some(format!("spawn failed: {e}")),
         Ok(o) => {
@@ -92,6 +109,7 @@ fn run_child(dir: &Path) -> ChildOut {
             out.entries_failed = v["entries_failed"].as_u64().unwrap_or(0);
             out.corruption_events = v["corruption_events"].as_u64().unwrap_or(0);
             out.data_loss = v["data_loss"].as_bool().unwrap_or(false);
+            out.second = v["second"].as_str().map(|x| x.to_string());
         }
     }
     out
@@ -582,6 +600,11 @@ async fn scenario(mon: &Monitor, rng: &mut Rng, per_store: usize) {
                     }
                 }
             }
+        }
+        // (e) what the first recovery left on disk recovers to the same state again
+        mon.eval();
+        if let Some(diff) = &out.second {
+            mon.violation(&format!("second-restart/state-differs-from-the-first-recovery/{kind}/{d:?}"), ctx(json!({"difference": diff})));
         }
         // (d') damage confined to a snapshot leaves every log record intact: whatever recovery makes
         // of the snapshot, each key the logs touch must end up as the logs say
